@@ -4,11 +4,16 @@
 use crate::engine::*;
 
 pub mod c01;
+pub mod c04;
 pub mod c07;
 pub mod c08;
 pub mod c09;
 pub mod c10;
 pub mod c11;
+pub mod c12;
+pub mod c13;
+pub mod c14;
+pub mod c19;
 
 pub struct Prop {
     pub id: &'static str,
@@ -18,11 +23,16 @@ pub struct Prop {
 
 pub const PROPS: &[Prop] = &[
     Prop { id: "C01", run: c01::run, eval: c01::eval },
+    Prop { id: "C04", run: c04::run, eval: c04::eval },
     Prop { id: "C07", run: c07::run, eval: c07::eval },
     Prop { id: "C08", run: c08::run, eval: c08::eval },
     Prop { id: "C09", run: c09::run, eval: c09::eval },
     Prop { id: "C10", run: c10::run, eval: c10::eval },
     Prop { id: "C11", run: c11::run, eval: c11::eval },
+    Prop { id: "C12", run: c12::run, eval: c12::eval },
+    Prop { id: "C13", run: c13::run, eval: c13::eval },
+    Prop { id: "C14", run: c14::run, eval: c14::eval },
+    Prop { id: "C19", run: c19::run, eval: c19::eval },
 ];
 
 pub fn find(id: &str) -> Option<&'static Prop> {
